@@ -21,10 +21,19 @@ func main() {
 	groups := flag.String("groups", "", "comma separated assertion label prefixes to check")
 	replayDir := flag.String("replay-dir", "/verif/replays", "where scenario files are written")
 	knownFile := flag.String("known", "/verif/known_findings.json", "known findings file")
+	params := flag.String("params", "", "comma separated name=int harness parameters (bounds)")
 	noNative := flag.Bool("no-native", false, "skip native replay (development only)")
 	flag.Parse()
 	cfg := &RunConfig{HarnessDir: *harnessDir, Property: *property, Tier: *tier, Workers: *workers, Out: *out,
 		Solver: *solver, Trace: *trace, MaxPaths: *maxPaths, ReplayDir: *replayDir, KnownFile: *knownFile, NoNative: *noNative}
+	cfg.Params = map[string]int{}
+	for _, kv := range strings.Split(*params, ",") {
+		if i := strings.Index(kv, "="); i > 0 {
+			var v int
+			fmt.Sscanf(kv[i+1:], "%d", &v)
+			cfg.Params[kv[:i]] = v
+		}
+	}
 	if *groups != "" {
 		cfg.Groups = strings.Split(*groups, ",")
 	}
